@@ -38,7 +38,7 @@ def judge(doc, reduced_doc, ndigits, allow_text, drop, has_unsupported):
     o, out = convert(doc, ndigits, allow_text, drop)
     why = []
     if o == "returned":
-        why = R4.validate(out, ndigits=ndigits, allow_text=allow_text)
+        why = R4.validate(out, ndigits=ndigits, allow_text=allow_text, require_stops=True)
         if not allow_text and ("<text" in out or "<tspan" in out):
             why.append("text content survives without allow_text")
     elif drop and has_unsupported and reduced_doc is not None:
